@@ -78,7 +78,10 @@ def run(ctx):
                 "constructor, each aggregate alone, all together, repeat, permutation, re-use on a second cube and back, shortcut "
                 "methods; index cases: one non-mutating method (C06 list incl. properties, column_stack, from_array) after a random "
                 "history of mutating operations, called twice (+ once with other arguments), results documented as copies are "
-                "overwritten; every argument snapshot byte-for-byte after every call.  Every fifth cube case belongs to the MAGNITUDE "
+                "overwritten; every argument snapshot byte-for-byte after every call; lists that mention the SAME aggregate object "
+                "two or three times ([f,f], [f,g,f] ...) compared position by position with calculate([f]); the same counts / "
+                "mapping / mask / precedence object re-used by the second call; append cases: the operand index is watched and "
+                "re-used on a second identical receiver.  Every fifth cube case belongs to the MAGNITUDE "
                 "stream (40-80 rows, float facts / weights / values hidden under a False validity around 1e307 - their total is "
                 "inf - or around 1e-300).  The FORM of every argument varies with its content unchanged (harness/forms.py): arrays "
                 "strided / negative-stride / Fortran / transposed-store / READ-ONLY (a write attempt raises: also a finding), "
